@@ -1200,6 +1200,19 @@ def _imports(repo, rel, mod_tail, name):
     return False
 
 
+def _is_diagnostic(call):
+    """logging / print / warnings calls do not change the data"""
+    n = call_name(call) or ""
+    parts = n.split(".")
+    if n in ("print", "warnings.warn"):
+        return True
+    if parts[-1] in ("debug", "info", "warning", "error", "exception",
+                     "critical", "log") and len(parts) >= 2 and (
+            "log" in parts[-2].lower() or parts[0] == "logging"):
+        return True
+    return False
+
+
 def _inversion(ctx, filt, call):
     """the mask returned is the routine's result, inverted iff
     self.inverted – decided by executing the statements after the call for
@@ -1282,6 +1295,9 @@ def _inversion(ctx, filt, call):
                     return r
                 continue
             touched = names_in(s) & set(env)
+            if isinstance(s, ast.Expr) and isinstance(s.value, ast.Call) \
+                    and _is_diagnostic(s.value):
+                continue        # logging / print / warnings: no effect
             if not touched:
                 if isinstance(s, (ast.For, ast.While, ast.Try, ast.With)) \
                         and any(isinstance(x, ast.Return) for x in walk(s)):
@@ -1455,19 +1471,34 @@ def r153(ctx, repo):
         raise AnalysisError("PolygonFilter.save: line templates lost")
     # reader: head detection and dispatch loop
     disp = None
+    VAR = VAL = unpack = None
     for lp in walk(load):
-        if isinstance(lp, ast.For) and isinstance(lp.target, ast.Tuple) \
-                and len(lp.target.elts) == 2 and lp.body \
-                and isinstance(lp.body[-1], ast.If) and all(
-                    isinstance(x, ast.Assign) and len(x.targets) == 1
-                    and isinstance(x.targets[0], ast.Name)
-                    for x in lp.body[:-1]):
+        if not (isinstance(lp, ast.For) and lp.body and isinstance(
+                lp.body[-1], ast.If)):
+            continue
+        pre = lp.body[:-1]
+        if not all(isinstance(x, ast.Assign) and len(x.targets) == 1
+                   for x in pre):
+            continue
+        if isinstance(lp.target, ast.Tuple) and len(lp.target.elts) == 2 \
+                and all(isinstance(x.targets[0], ast.Name) for x in pre):
             disp = lp
+            VAR, VAL = [txt(x) for x in lp.target.elts]
+            unpack = None
+        elif isinstance(lp.target, ast.Name):
+            # `for line in ...: var, val = <split of line>`
+            un = [x for x in pre if isinstance(x.targets[0], ast.Tuple)
+                  and len(x.targets[0].elts) == 2
+                  and lp.target.id in names_in(x.value)]
+            if len(un) == 1 and all(isinstance(x.targets[0], ast.Name)
+                                    for x in pre if x is not un[0]):
+                disp = lp
+                VAR, VAL = [txt(x) for x in un[0].targets[0].elts]
+                unpack = un[0]
     if disp is None:
         raise AnalysisError("PolygonFilter._load: key dispatch loop lost")
-    VAR, VAL = [txt(x) for x in disp.target.elts]
     # local aliases computed before the dispatch (key = var.lower())
-    prefix = disp.body[:-1]
+    prefix = [x for x in disp.body[:-1] if x is not unpack]
     if any(x.targets[0].id in (VAR, VAL) for x in prefix):
         raise AnalysisError("PolygonFilter._load: key/value re-bound before "
                             "the dispatch")
@@ -2165,4 +2196,24 @@ TWINS = [
        '        verts = np.array(poly)\n'
        '        inside = points_in_poly(points=points, verts=verts)\n'
        '        return inside.item()\n')]),
+    ("refactoring 2: split/strip pass merged into the parsing loop", POLY,
+     [("        subdata = data[start:end]\n\n"
+       "        # separate all elements and strip them\n"
+       "        # (split at the first \"=\" only; the name may contain \"=\" "
+       "as well)\n"
+       "        subdata = [[it.strip() for it in li.split(\"=\", 1)] "
+       "for li in subdata]\n\n", ""),
+      ("        for var, val in subdata:\n",
+       "        for line in data[start:end]:\n"
+       "            var, val = [it.strip() for it in line.split(\"=\", 1)]\n"
+       )]),
+    ("refactoring 2: filter with a debug log line and out= keyword", POLY,
+     [("import io\n", "import io\nimport logging\n"),
+      ("class FilterIdExistsWarning(UserWarning):",
+       "logger = logging.getLogger(__name__)\n\n\n"
+       "class FilterIdExistsWarning(UserWarning):"),
+      ("            np.invert(f, f)\n\n        return f\n",
+       "            np.invert(f, out=f)\n\n"
+       "        logger.debug(\"polygon filter applied to %d events\", "
+       "f.size)\n        return f\n")]),
 ]
